@@ -451,8 +451,18 @@ def stage_propagate(ctx):
             # the next image on the SAME grid, propagated by the SAME distances with the same options, but recorded at another
             # wavelength / in another medium (stored in its metadata, no keyword arguments): a second colour channel, or the
             # next sample on the same camera
-            r, c, sx, sy, cplx, org, cfsp, gf, islist, ds, darg = prev
-            mi0, wl0 = rng.choice(MEDIA)
+            r, c, sx, sy, cplx, org, cfsp, gf, islist, ds, darg, pmi, pwl = prev
+            # one-factor siblings two times out of three: only the medium index, or only the vacuum wavelength, differs
+            # from the previous image (a cache of transfer functions keyed without one of them serves the stale one)
+            var = (k // 4) % 3
+            if var == 0:
+                mi0, wl0 = rng.choice([m for m in (1.0, 1.25, 1.33, 1.5) if m != pmi]), pwl
+                ctx.count("prop:twin:only-medium-index-differs")
+            elif var == 1:
+                mi0, wl0 = pmi, rng.choice([w for w in (0.405, 0.5, 0.625, 0.66) if w != pwl])
+                ctx.count("prop:twin:only-wavelength-differs")
+            else:
+                mi0, wl0 = rng.choice(MEDIA)
             seed = rng.randrange(1 << 30)
             a = gen_data(seed, (r, c), cplx)
             mode, mi_arg, wl_arg, mi_im, wl_im = "stored", None, None, mi0, wl0
@@ -497,7 +507,7 @@ def stage_propagate(ctx):
             else:
                 ds = [gen_dist(rng) if rng.random() < 0.9 else 0.0]
                 darg = ds[0]
-        prev = (r, c, sx, sy, cplx, org, cfsp, gf, islist, ds, darg) if mode == "stored" else prev
+        prev = (r, c, sx, sy, cplx, org, cfsp, gf, islist, ds, darg, mi_im, wl_im) if mode == "stored" else prev
         meta = dict(case=k, shape=[r, c], spacing=[sx, sy], origin=org, data_seed=seed, complex=cplx, d=darg, cfsp=cfsp,
                     gradient_filter=gf, image_meta=[mi_im, wl_im], arg_meta=[mi_arg, wl_arg], mode=mode)
         try:
@@ -830,6 +840,34 @@ def timed(ctx, tag, fn, *a):
     return r
 
 
+FOURIER_PY = "holopy/core/process/fourier.py"
+PROP_PY = "holopy/propagation/convolution_propagation.py"
+
+
+def _src_items():
+    from harness.lib import pysrc, pycx
+    op = {"get_spacing(c)": "sp", "len(c)": "dim"}
+    return [
+        dict(file=FOURIER_PY, qualname="ft_coord", name="ft_coord_src",
+             fn=lambda repo: pysrc.translate(repo, FOURIER_PY, "ft_coord", "ft_coord_src", [("c", "obj")], "list R", opaque_exprs=op)),
+        dict(file=FOURIER_PY, qualname="ift_coord", name="ift_coord_src",
+             fn=lambda repo: pysrc.translate(repo, FOURIER_PY, "ift_coord", "ift_coord_src", [("c", "obj")], "list R", opaque_exprs=op)),
+        dict(file=PROP_PY, qualname="(header)", name="cpow_src", fn=lambda repo: pycx.HEADER),
+        dict(file=PROP_PY, qualname="trans_func", name="trans_func_src",
+             fn=lambda repo: pycx.translate(
+                 repo, PROP_PY, "trans_func", "trans_func_src",
+                 [("schema", "ignore"), ("d", "R"), ("med_wavelen", "R"), ("cfsp", "nat"), ("gradient_filter", "optR")], ["m", "n"],
+                 opaque_calls={"ft_coord"}, identity_calls={"ensure_array"})),
+    ]
+
+
+def stage_srctie(ctx):
+    from harness.lib import srctie
+    ok = srctie.run(ctx, "C17", "From Coq Require Import Lia Psatz.\nFrom HV Require Import C17.Model C17.Lemmas C17.Props.\n",
+                    _src_items())
+    ctx.count("srctie:%s" % ("ok" if ok else "broken"))
+
+
 def run(ctx):
     ctx.rule = ("image shapes 2..64 x 2..64: every shape 2..8 x 2..8 (thorough 2..12) with random real / complex data "
                 "compared in Q at 1e-9, squares and n x (n+1) up to 16 (thorough 32) plus random / extreme shapes up to "
@@ -861,7 +899,17 @@ def run(ctx):
         "oracle: numpy sqrt/exp/pi inside trans_func (model evaluated over R by Coq-Interval, 1e-9)",
         "xarray alignment / broadcasting by dimension name (observed through propagate's results)",
         "harness-side rounding of integer-labelled spectra (|value - label| < 1e-6) before the exact comparison"]
+    ctx.clauses_proved.append(
+        "source tie: trans_func (read per frequency pair: complex arithmetic, the clamp `root *= (root >= 0)`, the mask, cfsp and "
+        "the gradient filter) and ft_coord / ift_coord, translated from the current source text on every run, are proved equal "
+        "to the model's Gpt (code's clamp) for every distance, wavelength, cfsp, filter and frequency, and to the model's "
+        "coordinate functions; G(d1) G(d2) = G(d1+d2), G(d) G(-d) = 1, |G| <= 1, cfsp invariance, gradient filter = difference and "
+        "the coordinate round trip restated for the translated source")
+    ctx.trusted.append("translators harness/lib/pycx.py / pysrc.py (an array read as its generic element, xarray broadcasting by "
+                       "dimension name and DataArray wrapping ignored; complex numbers as real pairs with numpy's principal "
+                       "square root and exp; get_spacing(c), len(c) and the frequency coordinates opaque; float rounding ignored)")
     timed(ctx, "prove", ctx.prove)
+    timed(ctx, "source-tie", stage_srctie, ctx)
     boot.boot()
     timed(ctx, "shift", stage_shift, ctx)
     timed(ctx, "shift-labels", stage_shift_labels, ctx)
@@ -881,6 +929,10 @@ def replay(ctx, data):
     boot.boot()
     d = data["data"]
     kind = d.get("kind")
+    if kind == "tie":
+        ctx.prove()
+        stage_srctie(ctx)
+        return
     if kind == "explore":
         case = {k: d[k] for k in ("shape", "spacing", "medium_index", "illum_wavelen", "complex", "data_seed", "cfsp",
                                   "gradient_filter", "d1", "d2")}
